@@ -191,10 +191,15 @@ def size(b):
 class Render(object):
   """Renders a program to source, one statement per line, numbering sites."""
 
-  def __init__(self, indent='    '):
+  def __init__(self, indent='    ', directives=False):
     self.lines = []
     self.site = 0
     self.ind = indent
+    self.directives = directives
+
+  def loop_directive(self, ind, site):
+    if self.directives:
+      self.emit(ind, 'setopts(maximum_iterations=%d)' % (1000 + site))
 
   def new(self):
     self.site += 1
@@ -233,11 +238,11 @@ class Render(object):
     elif k == 'raise':
       e(ind, 'raise E(mark(%d))' % self.new())
     elif k == 'ATTR':
-      e(ind, 'o.a = o.a * 100 + %d' % self.new())
+      e(ind, 'zo.a = zo.a * 100 + %d' % self.new())
     elif k == 'SUB':
       e(ind, "d['k'] = d['k'] * 100 + %d" % self.new())
     elif k == 'RATTR':
-      e(ind, 't(%d, o.a)' % self.new())
+      e(ind, 't(%d, zo.a)' % self.new())
     elif k == 'RSUB':
       e(ind, "t(%d, d['k'])" % self.new())
     elif k == 'AND':
@@ -307,6 +312,7 @@ class Render(object):
         self.block(s[2], ind + 1)
     elif k == 'while':
       e(ind, 'while c(%d):' % self.new())
+      self.loop_directive(ind + 1, self.site)
       self.block(s[1], ind + 1)
       if len(s) > 2 and s[2]:
         e(ind, 'else:')
@@ -317,6 +323,7 @@ class Render(object):
         e(ind, 'for x, y in it2(%d):' % self.new())
       else:
         e(ind, 'for %s in it(%d):' % (tg, self.new()))
+      self.loop_directive(ind + 1, self.site)
       self.block(s[2], ind + 1)
       if len(s) > 3 and s[3]:
         e(ind, 'else:')
@@ -362,12 +369,12 @@ def h3(a):
 '''
 
 
-def source(body, pro=(), epi=(), pid=0, params='o, d', name='f', declare_global=False, helpers=False, pro_base=900,
-           epilogue=True):
+def source(body, pro=(), epi=(), pid=0, params='zo, d', name='f', declare_global=False, helpers=False, pro_base=900,
+           epilogue=True, directives=False):
   """Full module source for a program.  The unique pid constant keeps code
   objects of different programs from comparing equal (the cache keys on code
   objects by value)."""
-  r = Render()
+  r = Render(directives=directives)
   r.emit(0, 'def %s(%s):' % (name, params))
   if declare_global:
     r.emit(1, 'global G')
